@@ -1257,3 +1257,16 @@ def m_unwrap_or_val(ex, st, callee, args, dty, m):
     if v.variant is not None:
         return payload(ex, v, "Some") if v.variant == "Some" else args[1]
     return ("__fork__", [(enum_is(ex, v, "Some"), payload(ex, v, "Some")), (enum_is(ex, v, "None"), args[1])])
+
+
+@model(r"<(?:std::iter::|core::iter::)?Map<.*> as Iterator>::collect::<Vec<.*>>$")
+def m_map_collect(ex, st, callee, args, dty, m):
+    it = args[0]
+    if not (isinstance(it, Agg) and it.name == "MapIter"):
+        return NotImplemented
+    items = _adaptor_items(ex, it.fields[0])
+    if items is None:
+        return NotImplemented
+    if not items:
+        return Seq([], None)
+    return sum_driver(ex, items, it.fields[1], dty, collect=True)
